@@ -316,7 +316,10 @@ def wed(params):
     pt_b = vsum(base_bottom, vec_b)
     vec_ab = vdiff(vec_a, vec_b)
     vec_c = vect(vec_ab, height)
-    sign_c = 1 if mixed(vec_a, vec_b, vec_c) > 0. else -1
+    # vec_c is normal to the slanted facet; it points away from the wedge if
+    # (vec_a, vec_b, height) is a left-handed triple and into the wedge
+    # otherwise
+    sign_c = 1 if mixed(vec_a, vec_b, height) < 0. else -1
     return [
         (MS.P, planeParamsFromNormalAndPoint(vec_c, pt_a), sign_c),
         (MS.P, planeParamsFromNormalAndPoint(vec_a, pt_b), -1),
